@@ -449,7 +449,10 @@ impl CompiledInvocationBuilder<'_> {
                         .ap_change_info
                         .function_ap_change
                         .get(&id)
-                        .map_or(ApChange::Unknown, |x| ApChange::Known(x + 2)),
+                        // A change that does not fit is not tracked (the ap-change pass reports the
+                        // overflow wherever the change is used).
+                        .and_then(|x| x.checked_add(2))
+                        .map_or(ApChange::Unknown, ApChange::Known),
                     cairo_lang_sierra_ap_change::ApChange::FromMetadata => ApChange::Known(
                         *self
                             .program_info
